@@ -1163,6 +1163,9 @@ def flight_mutations(rng):
         "cert_empty_list": at(1, cert([])),
         "cert_garbage_der": at(1, cert([(b"hello", b"")])),
         "cert_empty_der": at(1, cert([(b"", b"")])),
+        # T11: the X.509 version INTEGER (a0 03 02 01 02) set to 18: x509.InvalidVersion is not a ValueError
+        "cert_bad_version": at(1, lambda m: m.replace(b"\xa0\x03\x02\x01\x02", b"\xa0\x03\x02\x01\x12", 1)),
+        "cert_version_1": at(1, lambda m: m.replace(b"\xa0\x03\x02\x01\x02", b"\xa0\x03\x02\x01\x01", 1)),
         "cert_context": at(1, lambda m: tls_msg(11, b"\x03abc" + m[5:])),
         "cert_chain_garbage": at(1, lambda m: tls_msg(11, m[4:5] + (lambda eb: len(eb).to_bytes(3, "big") + eb)(m[8:] + (3).to_bytes(3, "big") + b"abc" + (0).to_bytes(2, "big")))),
         "cert_truncated": at(1, lambda m: tls_msg(11, m[4:40])),
